@@ -28,6 +28,7 @@ mod rx_crypt;
 mod exercise;
 mod rx_walk;
 mod rx_bytes;
+mod rx_restrace;
 
 fn main() {
     let args: Vec<String> = std::env::args().collect();
@@ -60,6 +61,7 @@ fn main() {
         "crypt" => rx_crypt::run(&args[2], &args[3], &opts),
         "walk" => rx_walk::run(&args[2], &args[3], &opts),
         "bytes" => rx_bytes::run(&args[2], &args[3], &opts),
+        "restrace" => rx_restrace::run(&args[2], &args[3], &opts),
         "cache" => rx_cache::run(&args[2], &args[3], &opts),
         "widths" => rx_font::run_widths(&args[2], &args[3], &opts),
         "cmap" => rx_font::run_cmap(&args[2], &args[3], &opts),
